@@ -117,6 +117,19 @@ Proof.
   eapply rel_trans; [apply rel_with_cur|apply rel_check_timeout].
 Qed.
 
+Lemma rel_poke_op c o k : rel o (fst (poke_op c o k)).
+Proof.
+  destruct k; cbn [poke_op].
+  - pose proof (rel_op_to o STARTED) as R. destruct (op_to o STARTED); exact R.
+  - pose proof (rel_op_to o CANCELED) as R. destruct (op_to o CANCELED); exact R.
+  - pose proof (rel_op_to o REPLACED) as R. destruct (op_to o REPLACED); exact R.
+  - pose proof (rel_check_expired o) as R. destruct (check_expired o); exact R.
+  - pose proof (rel_check_timeout o) as R. destruct (check_timeout o); exact R.
+  - pose proof (rel_check_success o) as R. destruct (check_success o); exact R.
+  - destruct (alist_get (cache c) (o_rid o)) as [r|]; [|apply rel_refl].
+    pose proof (rel_op_check o r) as R. destruct (op_check o r); exact R.
+Qed.
+
 (* Operator.Check never revives or rewinds: an ended operator is returned unchanged *)
 Lemma op_check_end o r : op_is_end o = true -> op_check o r = (o, None).
 Proof. unfold op_check. intros ->. reflexivity. Qed.
